@@ -52,7 +52,7 @@ def list_modules():
 
 
 def plan(tier, seed):
-    return [{"name": f"first:{m}", "module": m, "seed": seed, "random_rounds": 0 if tier == "quick" else 25} for m in list_modules()]
+    return [{"name": f"first:{m}", "module": m, "seed": seed, "random_rounds": 3 if tier == "quick" else 25} for m in list_modules()]
 
 
 # ----------------------------------------------------------------------------- discovery
@@ -104,7 +104,7 @@ def discover():
 
 
 # ----------------------------------------------------------------------------- factories (non-default values)
-def factories(rng=None):
+def factories(rng=None, boundary=False):
     import quansino.operations.cell as oc
     import quansino.operations.displacement as od
     from quansino.integrators.displacement import Verlet
@@ -117,7 +117,17 @@ def factories(rng=None):
     from quansino.utils.moves import MoveStorage
 
     r = (lambda lo, hi: float(rng.uniform(lo, hi))) if rng is not None else None
-    f = lambda default, lo, hi: r(lo, hi) if r else default + 1.2345678912e-7  # noqa: E731  (not representable in few digits)
+    def f(default, lo, hi, edges=()):
+        """Non-default float; with random factories a quarter of the draws take one of the documented boundary values
+        (0.0 and 1.0 for probabilities and biases): falsy values are where truthiness tests in (de)serialisers bite."""
+        if boundary and edges:
+            return float(edges[0])  # the deterministic boundary round: every parameter that has a falsy boundary value takes it
+        if not r:
+            return default + 1.2345678912e-7  # not representable in few digits
+        if edges and rng.random() < 0.25:
+            return float(edges[int(rng.integers(len(edges)))])
+        return r(lo, hi)
+
     i = lambda default, lo, hi: int(rng.integers(lo, hi)) if rng is not None else default  # noqa: E731
     b = lambda default: bool(rng.random() < 0.5) if rng is not None else default  # noqa: E731
 
@@ -135,12 +145,12 @@ def factories(rng=None):
 
     def dmove(op=None):
         m = DisplacementMove(labels(), op or od.Box(f(0.21, 0.01, 2)), apply_constraints=b(False))
-        m.default_label = i(3, -2, 9) if rng is None or rng.random() < 0.8 else 0
+        m.default_label = 0 if boundary else (i(3, -2, 9) if rng is None or rng.random() < 0.8 else 0)
         m.max_attempts = i(7, 1, 50)
         return m
 
     def emove():
-        m = ExchangeMove(labels(), od.TranslationRotation(), bias_towards_insert=f(0.3, 0.05, 0.95), apply_constraints=b(False))
+        m = ExchangeMove(labels(), od.TranslationRotation(), bias_towards_insert=f(0.3, 0.05, 0.95, (0.0, 1.0)), apply_constraints=b(False))
         m.default_label = 0
         m.max_attempts = i(7, 1, 50)
         return m
@@ -157,7 +167,7 @@ def factories(rng=None):
 
     def cexch():
         c = CompositeExchangeMove([emove(), emove()])
-        c.bias_towards_insert = f(0.3, 0.05, 0.95)
+        c.bias_towards_insert = f(0.3, 0.05, 0.95, (0.0, 1.0))
         return c
 
     F = {
@@ -182,7 +192,7 @@ def factories(rng=None):
         "CanonicalCriteria": qc.CanonicalCriteria,
         "IsobaricCriteria": qc.IsobaricCriteria,
         "GrandCanonicalCriteria": qc.GrandCanonicalCriteria,
-        "MoveStorage": lambda: MoveStorage(dmove(), qc.CanonicalCriteria(), interval=i(3, 1, 9), probability=f(0.4, 0.01, 5), minimum_count=i(1, 0, 3)),
+        "MoveStorage": lambda: MoveStorage(dmove(), qc.CanonicalCriteria(), interval=i(3, 1, 9), probability=f(0.4, 0.01, 5, (0.0,)), minimum_count=i(1, 0, 3)),
     }
     for nm in ("IsotensionCriteria", "HamiltonianCanonicalCriteria"):
         if hasattr(qc, nm):
@@ -424,9 +434,12 @@ def run(spec):
     found, drivers = discover()
     rec.count("classes_discovered", len(found))
     rec.data["classes"] = sorted(found)
-    rounds = [None] + [np.random.Generator(np.random.PCG64(derive_seed("c08", spec["seed"], first, k))) for k in range(spec["random_rounds"])]
+    rounds = [None, "boundary"] + [np.random.Generator(np.random.PCG64(derive_seed("c08", spec["seed"], first, k))) for k in range(spec["random_rounds"])]
     for rng in rounds:
-        F = factories(rng)
+        boundary = isinstance(rng, str)
+        if boundary:
+            rng = None
+        F = factories(rng, boundary=boundary)
         for cname, (cls, cat) in sorted(found.items()):
             fac = F.get(cname) or generic_factory(cls)
             if fac is None:
